@@ -699,6 +699,24 @@ func (c *gChecker) entryEnabled(in *gInst, e *gEnt, t int, why string) bool {
 				ok = false
 			}
 		}
+		// A task whose entries before a task-call entry have all completed does enter that call, and the
+		// call returns only when the callee's (possibly shared) execution is over: if the callee still
+		// produces events after one of the caller's deferred entries has started, the call returned early.
+		for _, x := range in.Ents {
+			if x.Defer {
+				continue
+			}
+			if m.entDone(in, x) < t {
+				continue
+			}
+			if x.Kind == gCall && x.Callee.Shared && !x.Callee.Skip && x.Callee.Guard != "requires" && x.Callee.Guard != "enum" {
+				if le := c.lastEvent(x.Callee); le > t {
+					c.add("C02", "call_returned_before_shared_callee_finished", "%s: deferred entry %s of %s ran at %d, but its call entry %s to %s had been entered and that execution was still producing events at %d", why, e.Lab, in.P, t, x.Lab, x.Callee.P, le)
+					ok = false
+				}
+			}
+			break // only the first entry that is not done can be the one in progress
+		}
 		// the normal phase must be over: no normal entry may be in progress
 		for i := pos + 1; i < len(in.Ents); i++ {
 			x := in.Ents[i]
